@@ -146,6 +146,12 @@ fn run_call(call: &str, cc: &Covercrypt, mpk: &MasterPublicKey, msk: &mut Master
                 let (s, h) = EncryptedHeader::generate(cc, mpk, &ap, Some(b"metadata"), Some(b"aad")).map_err(|e| e.to_string())?;
                 Product::Header(h, s.to_vec(), Some(b"metadata".to_vec()))
             }
+            "encrypt_big" => {
+                // a plaintext of several hundred KiB (size-dependent code paths)
+                let ptx = vec![0x5au8; 300 * 1024];
+                let (e, c) = PkeAc::<{ Aes256Gcm::KEY_LENGTH }, Aes256Gcm>::encrypt(cc, mpk, &ap, &ptx).map_err(|e| e.to_string())?;
+                Product::Pke(e, c, ptx)
+            }
             // header with one-byte / empty / absent authentication data (value in the call name)
             x if x.starts_with("header_ad:") => {
                 let v = x[10..].parse::<i64>().unwrap_or(-1);
